@@ -105,6 +105,26 @@ func (g *FnGen) doCall(ci ssa.CallInstruction, v ssa.Value) {
 	} else if mc, ok := c.Value.(*ssa.MakeClosure); ok {
 		callee = mc.Fn.(*ssa.Function)
 	}
+	if f, ok := c.Value.(*ssa.Function); ok && ct == nil && g.shouldInline(f, name) {
+		all := args
+		if recv != nil {
+			all = append([]Val{*recv}, args...)
+		}
+		if rs, ok := g.inlineCall(f, site, all); ok {
+			if v != nil {
+				switch len(rs) {
+				case 0:
+				case 1:
+					x := rs[0]
+					x.Go = v.Type()
+					g.vals[v] = x
+				default:
+					g.tuples[v] = rs
+				}
+			}
+			return
+		}
+	}
 
 	env := map[string]Val{}
 	if recv != nil {
@@ -128,7 +148,7 @@ func (g *FnGen) doCall(ci ssa.CallInstruction, v ssa.Value) {
 	pre := g.st.clone()
 
 	// at-call assertions from the caller's contract
-	if g.C != nil {
+	if g.C != nil && g.parent == nil {
 		for _, cs := range g.C.Calls {
 			if cs.Callee == name && (cs.K == 0 || cs.K == g.callOrd[ci]) {
 				for i, a := range cs.Assert {
@@ -160,6 +180,7 @@ func (g *FnGen) doCall(ci ssa.CallInstruction, v ssa.Value) {
 		}
 		if ct.NoReturn {
 			g.curGuard = g.def("R_dead", sortBool, "false")
+			g.blockGuard[g.curBlock] = g.curGuard
 			guard = g.curGuard
 		}
 	} else if callee != nil && g.P.Funcs[name] != nil {
@@ -175,7 +196,9 @@ func (g *FnGen) doCall(ci ssa.CallInstruction, v ssa.Value) {
 			g.havocAssign(a, env, sig, ct, ci)
 		}
 	} else {
-		for k := range g.E.callMods(ci, true) {
+		mods := g.E.callMods(ci, true)
+		for _, k := range sortedKeys(mods) {
+			g.checkCalleeKey(ci, k)
 			g.havocKey(k)
 		}
 	}
@@ -276,6 +299,7 @@ func (g *FnGen) havocAssign(a string, env map[string]Val, sig *types.Signature, 
 						if n == len(idx)-1 {
 							if stT, s := derefStruct(cur.Go); stT != nil {
 								k, fs := g.D.fieldKey(stT, fi)
+								g.checkAssign(ci, &Place{Key: k, Base: cur.T}, ci.Pos())
 								nv := g.freshVal("hv_"+s.Field(fi).Name(), s.Field(fi).Type(), g.curGuard)
 								_ = fs
 								g.st[k] = g.def("h", g.D.heapSorts[k], store(g.D.get(g.st, k), cur.T, nv.T))
@@ -293,6 +317,7 @@ func (g *FnGen) havocAssign(a string, env map[string]Val, sig *types.Signature, 
 		if v, ok := env[n]; ok && v.S == sortSlice {
 			et := v.Go.Underlying().(*types.Slice).Elem()
 			k := g.D.memKeyT(et)
+			g.checkAssign(ci, &Place{Key: k, Base: "(s_base " + v.T + ")"}, ci.Pos())
 			arr := g.freshConst("hvmem", fmt.Sprintf("(Array (_ BitVec 64) %s)", g.D.sortOf(et)))
 			g.st[k] = g.def("h", g.D.heapSorts[k], store(g.D.get(g.st, k), "(s_base "+v.T+")", arr))
 			return
@@ -307,6 +332,7 @@ func (g *FnGen) havocAssign(a string, env map[string]Val, sig *types.Signature, 
 		if strings.HasPrefix(k, "GV:") {
 			g.ensureGhostVar(k[3:])
 		}
+		g.checkCalleeKey(ci, k)
 		g.havocKey(k)
 	}
 }
@@ -613,4 +639,166 @@ func (g *FnGen) finish() {
 			g.obligeClause("ensures", label, r.guard, e, ctx, r.pos)
 		}
 	}
+}
+
+// ---------------------------------------------------------------------------------------
+// Inlining: small loop-free callees (generated accessors, functions marked "inline") are executed
+// symbolically at the call site instead of being abstracted by a contract. Their panic sites become
+// obligations of the caller; nothing about them is assumed.
+
+var autoInlinePkgs = map[string]bool{
+	"github.com/ipld/go-codec-dagpb": true,
+	"github.com/ipfs/go-bitfield":    true,
+}
+
+func (g *FnGen) shouldInline(f *ssa.Function, name string) bool {
+	if g.depth >= 4 {
+		return false
+	}
+	for p := g; p != nil; p = p.parent {
+		if p.fn == f {
+			return false
+		}
+	}
+	if g.S.Inline[name] {
+		return true
+	}
+	pkg := f.Pkg
+	if pkg == nil && f.Object() != nil && f.Object().Pkg() != nil {
+		pkg = g.P.Prog.Package(f.Object().Pkg())
+	}
+	if pkg == nil {
+		return false
+	}
+	auto := autoInlinePkgs[pkg.Pkg.Path()]
+	if !auto && inRepoPkg(pkg.Pkg) {
+		if f.Blocks == nil {
+			pkg.Build()
+		}
+		auto = isGeneratedFn(g.P.Prog, f)
+	}
+	if !auto {
+		return false
+	}
+	if f.Blocks == nil {
+		pkg.Build()
+	}
+	if f.Blocks == nil {
+		return false
+	}
+	n := 0
+	for _, b := range f.Blocks {
+		n += len(b.Instrs)
+		for _, s := range b.Succs {
+			if s.Dominates(b) {
+				return false // loops are never inlined
+			}
+		}
+		for _, ins := range b.Instrs {
+			switch ins.(type) {
+			case *ssa.MakeClosure, *ssa.Defer, *ssa.Go, *ssa.Select:
+				return false
+			}
+		}
+	}
+	return n <= 60
+}
+
+func (g *FnGen) inlineCall(f *ssa.Function, site string, args []Val) ([]Val, bool) {
+	if len(f.Params) != len(args) || len(f.FreeVars) > 0 {
+		return nil, false
+	}
+	r := g.root()
+	ch := &FnGen{P: g.P, S: g.S, E: g.E, D: g.D, fn: f, C: r.C, name: r.name, parent: g,
+		vals: map[ssa.Value]Val{}, tuples: map[ssa.Value][]Val{},
+		blockGuard: map[*ssa.BasicBlock]string{}, exitState: map[*ssa.BasicBlock]State{},
+		edgeCond: map[[2]*ssa.BasicBlock]string{}, loops: map[*ssa.BasicBlock]*loopInfo{},
+		env: r.env, siteNames: map[ssa.Instruction]string{}, callOrd: map[ssa.Instruction]int{},
+		assumptions: r.assumptions, usedExtern: r.usedExtern, defaultPure: r.defaultPure,
+		autoInvs: map[*ssa.BasicBlock][]autoInv{}, sweep: g.sweep, entrySt: r.entrySt,
+		labelPrefix: g.labelPrefix + site + ">" , entryGuard: g.curGuard, depth: g.depth + 1, inlined: r.inlined}
+	r.inlined[fnName(f)] = true
+	ch.analyzeLoops()
+	ch.nameSites()
+	ch.st = g.st.clone()
+	ch.curGuard = g.curGuard
+	for i, p := range f.Params {
+		v := args[i]
+		v.Go = p.Type()
+		ch.vals[p] = v
+	}
+	for _, b := range ch.rpo() {
+		ch.processBlock(b)
+	}
+	if len(ch.rets) == 0 {
+		g.curGuard = g.def("R_dead", sortBool, "false")
+		g.blockGuard[g.curBlock] = g.curGuard
+		var rs []Val
+		for i := 0; i < f.Signature.Results().Len(); i++ {
+			rt := f.Signature.Results().At(i).Type()
+			rs = append(rs, g.mkVal(g.D.zeroOf(rt), rt))
+		}
+		return rs, true
+	}
+	var guards []string
+	for _, rt := range ch.rets {
+		guards = append(guards, rt.guard)
+	}
+	n := f.Signature.Results().Len()
+	var rs []Val
+	for i := 0; i < n; i++ {
+		t := ch.rets[len(ch.rets)-1].results[i].T
+		for j := len(ch.rets) - 2; j >= 0; j-- {
+			t = ite(ch.rets[j].guard, ch.rets[j].results[i].T, t)
+		}
+		rt := f.Signature.Results().At(i).Type()
+		rv := g.mkVal(g.def("inl_ret", g.D.sortOf(rt), t), rt)
+		// keep symbolic places of returned addresses when there is a single return
+		if len(ch.rets) == 1 {
+			rv.Place = ch.rets[0].results[i].Place
+		}
+		rs = append(rs, rv)
+	}
+	keys := map[string]bool{}
+	for _, rt := range ch.rets {
+		for k := range rt.st {
+			keys[k] = true
+		}
+	}
+	st := State{}
+	for _, k := range sortedKeys(keys) {
+		t := g.D.get(ch.rets[len(ch.rets)-1].st, k)
+		for j := len(ch.rets) - 2; j >= 0; j-- {
+			t = ite(ch.rets[j].guard, g.D.get(ch.rets[j].st, k), t)
+		}
+		if strings.HasPrefix(t, "(ite") {
+			t = g.def("hinl", g.D.heapSorts[k], t)
+		}
+		st[k] = t
+	}
+	g.st = st
+	if len(guards) > 1 || guards[0] != g.curGuard {
+		g.curGuard = g.def("R_after", sortBool, or(guards...))
+		g.blockGuard[g.curBlock] = g.curGuard
+	}
+	return rs, true
+}
+
+// checkCalleeKey: a callee that may write a whole heap key is only permitted under a caller
+// assigns clause that names the key without a base (or "*").
+func (g *FnGen) checkCalleeKey(ci ssa.CallInstruction, k string) {
+	r := g.root()
+	if r.C == nil || !r.C.HasAssign || k == liveKey {
+		return
+	}
+	if _, known := g.D.heapSorts[k]; !known && k != "*" {
+		return
+	}
+	for _, a := range r.C.Assigns {
+		ak, base := g.resolveAssignPlace(a)
+		if ak == "*" || (ak == k && base == "") {
+			return
+		}
+	}
+	g.oblige("assigns", g.siteNames[ci]+":callee-writes:"+strings.TrimPrefix(k, "F:"), g.curGuard, "false", "callee may write "+k+", which the assigns clause does not permit", ci.Pos())
 }
